@@ -149,15 +149,12 @@ pub fn registry_hygiene() {
     let _ = Addr::<Probe<2>>::unregister().now_or_never();
 }
 
-/// The initial "a live instance of type 1 is registered" state. With debug assertions on,
-/// from_registry pings the fresh instance, which cannot complete inside scene setup (no task
-/// runs there); spawning a default instance and registering it gives the same state.
+/// The initial "a live instance of type 1 is registered" state: a default instance is spawned
+/// and registered. (Not through from_registry: with debug assertions on - or after a change to
+/// the library - that awaits a ping of the fresh instance, which cannot complete inside scene
+/// setup, where no task runs.)
 fn preregister() -> Addr<Probe<1>> {
-    if cfg!(debug_assertions) {
-        block_inline(Probe::<1>::default().spawn().register()).expect("register on an empty registry").0
-    } else {
-        block_inline(Probe::<1>::from_registry())
-    }
+    block_inline(Probe::<1>::default().spawn().register()).expect("register on an empty registry").0
 }
 
 struct S {
@@ -165,11 +162,18 @@ struct S {
     programs: Vec<Vec<(u8, ROp)>>,
     /// service type 1 has a registered live instance initially, held by every client
     preregistered: bool,
+    /// the first instance of type 1 that starts fails in started() (whichever it is: the one
+    /// spawned on demand or one a client registers); later ones start fine
+    first_start_fails: bool,
 }
 
 impl Scene for S {
     fn roles(&self) -> Vec<RoleCfg> {
-        vec![RoleCfg::default(), RoleCfg::default(), RoleCfg::default()]
+        let mut r = vec![RoleCfg::default(), RoleCfg::default(), RoleCfg::default()];
+        if self.first_start_fails {
+            r[1].started = vec![crate::world::StartBeh::Err];
+        }
+        r
     }
     fn pre(&self) {
         registry_hygiene();
@@ -596,7 +600,7 @@ fn push_case(v: &mut Vec<Case>, programs: Vec<Vec<(u8, ROp)>>, preregistered: bo
         desc,
         exec: ExecCfg { yield_holding_lock: holding, ..ExecCfg::default() },
         bound,
-        scene: Box::new(S { programs, preregistered }),
+        scene: Box::new(S { programs, preregistered, first_start_fails: false }),
     });
 }
 
@@ -660,6 +664,28 @@ fn cases(tier: Tier) -> Vec<Case> {
                     push_case(&mut v, vec![vec![(1, x)], vec![(1, y)], vec![(1, z)]], pre, if heavy && tier == Tier::Quick { Some(4) } else { None });
                 }
             }
+        }
+    }
+    // the first instance to start fails in started(): a lookup that meets a failed instance never
+    // disturbs a live one that somebody else registered meanwhile. (Release semantics only: with
+    // debug assertions on, from_registry's debug_assert!(ping) panics in the caller by design.)
+    if !cfg!(debug_assertions) {
+        let f = (1u8, ROp::FromRegistry);
+        let progs: Vec<Vec<Vec<(u8, ROp)>>> = vec![
+            vec![vec![f, f]],
+            vec![vec![f, (1, ROp::AlreadyRunning), f]],
+            vec![vec![f], vec![f]],
+            vec![vec![f], vec![(1, ROp::ReplaceNew)]],
+            vec![vec![f], vec![(1, ROp::RegisterNew)]],
+            vec![vec![f, (1, ROp::AlreadyRunning)], vec![(1, ROp::ReplaceNew), (1, ROp::TryFromRegistry)]],
+            vec![vec![f, (1, ROp::TryFromRegistry)], vec![(1, ROp::RegisterNew), (1, ROp::AlreadyRunning)]],
+            vec![vec![f], vec![(1, ROp::ReplaceNew)], vec![(1, ROp::AlreadyRunning)]],
+            vec![vec![(1, ROp::Setup), f], vec![(1, ROp::ReplaceNew)]],
+        ];
+        for p in progs {
+            let desc = format!("registry [first start of the type fails] programs={}", p.iter().map(|c| c.iter().map(|(k, o)| format!("{o:?}{k}")).collect::<Vec<_>>().join(",")).collect::<Vec<_>>().join(" | "));
+            let bound = if p.len() >= 3 { Some(if tier == Tier::Quick { 4 } else { 6 }) } else { None };
+            v.push(Case { desc, exec: ExecCfg { yield_holding_lock: true, ..ExecCfg::default() }, bound, scene: Box::new(S { programs: p, preregistered: false, first_start_fails: true }) });
         }
     }
     // two service types are independent: same-type races with an unrelated type in between
